@@ -19,7 +19,32 @@ RELS = {'lt': '<', 'le': '<=', 'ge': '>=', 'gt': '>', 'eq': '==', 'neq': '!='}
 OPND = {'i': ['i', '3', 'j + 1'], 'd': ['d', '1.5'], 'x': ['x', 'y'], 'xy': ['x - y', 'y - x']}
 
 
+# the language's precedence of the connectives (the operator table of the documentation; OpTableRef.v): quantifiers bind weakest, then || or xor imply (one
+# level, left), then && and, then == !=, then the relations, and ! / not strongest
+LEVEL = {'forall': 1, 'exists': 1, 'or': 2, 'xor': 2, 'imply': 2, 'and': 3, 'eq': 4, 'neq': 4, 'not': 9}
+
+
+def render_min(f, rng):
+    """the formula with only the parentheses that table requires -> (text, level)"""
+    h = f[0]
+    if h == 'bool':
+        return rng.choice([('b', 10), ('c', 10), ('i == 1', 4), ('i < j', 5), ('true', 10)])
+    if h == 'cmp':
+        return '%s %s %s' % (rng.choice(OPND[f[2]]), RELS[f[1]], rng.choice(OPND[f[3]])), (4 if f[1] in ('eq', 'neq') else 5)
+    if h in ('and', 'or', 'xor', 'eq', 'neq', 'imply'):
+        sym = {'and': rng.choice(['&&', 'and']), 'or': rng.choice(['||', 'or']), 'xor': 'xor', 'eq': '==', 'neq': '!=', 'imply': 'imply'}[h]
+        L = LEVEL[h]
+        (a, la), (b, lb) = render_min(f[1], rng), render_min(f[2], rng)
+        return '%s %s %s' % (a if la >= L and la != 1 else '(%s)' % a, sym, b if lb > L else '(%s)' % b), L
+    if h == 'not':
+        a, la = render_min(f[1], rng)
+        return '%s%s' % (rng.choice(['!', 'not ']), a if la >= 9 else '(%s)' % a), 9
+    return '%s (q : int[0,1]) %s' % (h, render_min(f[1], rng)[0]), 1
+
+
 def render(f, rng):
+    if rng.random() < 0.4:
+        return render_min(f, rng)[0]
     h = f[0]
     if h == 'bool':
         return rng.choice(['b', 'c', 'i == 1', 'i < j', 'true'])
@@ -121,6 +146,24 @@ def check(run):
             f = ('and', a, f)
         forms.append(f)
     forms = list(dict.fromkeys(forms))
+    # every pair of connectives nested to the left and to the right over clock / clock-free atoms, written with only the parentheses the language's
+    # precedence table requires (x < 5 || b xor c is (x < 5 || b) xor c): the text decides the tree, the tree decides acceptance
+    nplain = len(forms)
+    A3 = [('bool',), ('cmp', 'lt', 'x', 'i')]
+    for c1 in binc:
+        for c2 in binc:
+            for a in A3:
+                for b in A3:
+                    for c in A3:
+                        forms.append((c2, (c1, a, b), c))
+                        forms.append((c1, a, (c2, b, c)))
+    for u in unc:
+        for c1 in binc:
+            for a in A3:
+                for b in A3:
+                    forms.append((u, (c1, a, b)))
+                    forms.append((c1, (u, a), b))
+                    forms.append((c1, a, (u, b)))
     out = subprocess.run([drv], input=''.join('F %s\n' % sx(f) for f in forms), stdout=subprocess.PIPE, universal_newlines=True).stdout.split('\n')
     model = []
     for line in out[:len(forms)]:
@@ -129,7 +172,7 @@ def check(run):
     if len(model) != len(forms):
         run.tie_broken('model driver', 'stopped early')
         return run.finish('proof')
-    texts = [render(f, rng) for f in forms]
+    texts = [render(f, rng) if k < nplain else render_min(f, rng)[0] for k, f in enumerate(forms)]
     j = vlib.Job()
     for k, t in enumerate(texts):
         j.case('g%d' % k).model('xml', XML % ('true', esc(t))).dump('errors').end()
